@@ -52,6 +52,19 @@ Lemma rules_empty_fine :
   applied (overlay_feature_variations 16 rules_empty) (at1 2) = [swap 0; swap 4].
 Proof. vm_compute. repeat split. Qed.
 
+(* ---- two rules of one region (written differently) replace glyph 0 differently -------------- *)
+Definition rules_same_region : list rule :=
+  [([iv 4 12; iv (-12) (-4)], [(0%N, 1%N)]);
+   ([iv 0 2], swap 6);
+   ([[(1%N, (-12, -4)); (2%N, (-16, 16))]; iv 4 12], [(0%N, 3%N); (2%N, 3%N)])].
+
+Lemma rules_same_region_fine :
+  rules_wfb 16 rules_same_region = true /\ exclusiveb 16 rules_same_region (at1 8) = true /\
+  compatibleb (active_maps rules_same_region (at1 8)) = false /\
+  applied (overlay_feature_variations 16 rules_same_region) (at1 8) = [[(0%N, 1%N); (2%N, 3%N)]] /\
+  spec_apply rules_same_region (at1 8) 0%N = 1%N /\ spec_apply rules_same_region (at1 8) 2%N = 3%N.
+Proof. vm_compute. repeat split. Qed.
+
 (* ---- two conditions on one axis: wght >= 4 and wght <= 12 ---------------------------------- *)
 Lemma two_conditions_fine :
   box_of_conditions 16 [(1%N, (None, Some 12)); (1%N, (Some 4, None))] = iv 4 12.
